@@ -47,11 +47,26 @@ def run(tier):
         write_cases(script, blocks)
         tr = os.path.join(c.wd, "trace_threads_%d.ndjson" % idx)
         tag = "T%dx%d" % (nthreads, rounds)
+        # sequential reference run: every generated configuration must be accepted at set-up when run alone
+        tr0 = os.path.join(c.wd, "trace_seq_%d.ndjson" % idx)
+        rc0, err0 = run_driver(exe, ["--script", script, "--scratch", scratch(c)], stdout_path=tr0, timeout=600)
+        with open(tr0) as f:
+            if rc0 != 0 or any('"out":"setup"' in ln for ln in f):
+                raise MachineryError("generated configuration refused at set-up in the sequential reference run (generator out of domain)")
         c.drive(exe, ["--script", script, "--threads", nthreads, "--rounds", rounds, "--seed", SEED + idx, "--scratch", scratch(c)], tr, tag, timeout=900,
                 env={"TSAN_OPTIONS": "halt_on_error=1:exitcode=66:report_signal_unsafe=0:history_size=4"})
         with open(tr) as f:
-            if any('"out":"setup"' in ln for ln in f):
-                raise MachineryError("generated configuration refused at set-up")
+            bad = [ln for ln in f if '"out":"setup"' in ln]
+        if bad:
+            # accepted when run alone (reference run above) but refused while other threads set up their handlers
+            rp = os.path.join(c.wd, "setup_refused_%d.ndjson" % idx)
+            with open(rp, "w") as f:
+                f.writelines(bad[:5])
+            c.violation("%s: a handler set-up that succeeds when run alone was refused while other threads were active: %s" % (tag, bad[0][:300]), rp)
+            with open(tr) as f:
+                keep = [ln for ln in f if '"out":"setup"' not in ln]
+            with open(tr, "w") as f:
+                f.writelines(keep)
         c.validate(SPEC, "TraceArgEval", "TraceArgEval.cfg", tr, tag, stateless=True)
     c.notes.append("schedules of the real code are sampled (free-running threads from a spin barrier with seeded start skews); ThreadSanitizer's "
                    "happens-before analysis makes a race observable even when it did not corrupt a result")
